@@ -77,3 +77,37 @@ Definition aird_first : list frag :=
   [mk 0 [mkNode 8 None None [] [] None; visual_ref]; mk 1 [mkNode 1 None None [11] [11] None; ph]; mk 2 [rootn]].
 Example placeholder_uniqueness_needed : parent_of aird_first 3 = Some 8 /\ parent_of (tl aird_first) 3 = Some 1.
 Proof. split; reflexivity. Qed.
+
+(* 5. downward navigation: the children the loader yields for an element (MelodyLoader.iterchildren_xt: a child that
+      carries an href is replaced by what its id resolves to) are exactly the non-placeholder elements whose parent in
+      the glued single-file tree is that element, and following a placeholder never fails — for every forest with
+      globally unique handles, local parent pointers, placeholders that resolve to the only owner of their id and at
+      most one placeholder per element.  Together with (1) upward and downward navigation describe the same tree. *)
+From V Require Import Proofs.GraphChildrenP.
+Theorem children_across_fragments : forall frs, GlobalHandles frs -> ParentsLocal frs -> PlaceholdersResolve frs ->
+  (forall r, In r (all_nodes frs) -> UniquePlaceholder frs r) ->
+  forall h, (forall k, In (Some k) (children_xt frs h) <->
+                       exists cn, In cn (all_nodes frs) /\ nh cn = k /\ nhref cn = None /\ glued_parent frs cn = Some h)
+            /\ ~ In None (children_xt frs h).
+Proof. intros frs Hg Hl Hr Hu h. split; [intro k; now apply children_glue|now apply children_all_resolve]. Qed.
+Print Assumptions children_across_fragments.
+(* hypotheses satisfiable: GraphP.d_forest — element 1 has the child 2 and, through the placeholder 3, the root 6 of the
+   second fragment *)
+Example children_across_fragments_hyps_sat :
+  GlobalHandles d_forest /\ ParentsLocal d_forest /\ PlaceholdersResolve d_forest /\
+  (forall r, In r (all_nodes d_forest) -> UniquePlaceholder d_forest r) /\ children_xt d_forest 1 = [Some 2; Some 6].
+Proof.
+  split; [exact d_forest_handles|]. split; [|split; [|split; [|reflexivity]]].
+  - intros fr n p Hfr Hn Hp. cbn in Hfr. destruct Hfr as [<-|[<-|[]]]; cbn in Hn.
+    + destruct Hn as [<-|[<-|[<-|[]]]]; cbn in Hp; try discriminate; injection Hp as <-;
+        (exists (mkNode 1 None (Some 100) [10] [10] None); split; [now left|reflexivity]).
+    + destruct Hn as [<-|[<-|[]]]; cbn in Hp; try discriminate; injection Hp as <-.
+      exists d_root2. split; [now left|reflexivity].
+  - intros p u Hp Hu. cbn in Hp. destruct Hp as [<-|[<-|[<-|[<-|[<-|[]]]]]]; cbn in Hu; try discriminate.
+    injection Hu as <-. exists d_root2. split; [reflexivity|]. split; [cbn; tauto|]. split; [reflexivity|]. split; [reflexivity|]. split; [now left|].
+    intros n Hn Hin. cbn in Hn. destruct Hn as [<-|[<-|[<-|[<-|[<-|[]]]]]]; cbn in Hin;
+      try reflexivity; try (destruct Hin as [E|[]]; discriminate E); try (destruct Hin).
+  - intros r Hr p1 p2 H1 H2 P1 P2. cbn in H1, H2.
+    destruct H1 as [<-|[<-|[<-|[<-|[<-|[]]]]]]; try discriminate P1;
+    destruct H2 as [<-|[<-|[<-|[<-|[<-|[]]]]]]; try discriminate P2; reflexivity.
+Qed.
